@@ -97,8 +97,36 @@ func ruleTxOrphanRemoval(c *Ctx, r *Reporter) {
 		})
 	}
 	// (b) call sites of Remove (static or through the Registry interface)
+	isRemoveCall := func(cc *ssa.CallCommon) bool {
+		if cc.StaticCallee() == remove {
+			return true
+		}
+		return cc.IsInvoke() && cc.Method.Name() == "Remove" && strings.Contains(cc.Value.Type().String(), "Registry")
+	}
+	// removal wrappers: unexported top-level functions outside the registry that do nothing to a transaction but call
+	// Remove (a helper extracted from a handler); their call sites carry the obligation, like Remove's own
+	wrappers := map[*ssa.Function]bool{}
 	for _, fn := range c.KevoFns {
-		if fn == remove {
+		if fn == remove || fn.Parent() != nil || fn.Object() == nil || fn.Object().Exported() || pkgOf(fn) == "pkg/transaction" {
+			continue
+		}
+		has, finishes := false, false
+		AllInstrs(fn, false, func(_ *ssa.Function, ins ssa.Instruction) {
+			if ci, ok := ins.(ssa.CallInstruction); ok {
+				if isRemoveCall(ci.Common()) {
+					has = true
+				}
+				if finishesHere(ins) {
+					finishes = true
+				}
+			}
+		})
+		if has && !finishes {
+			wrappers[fn] = true
+		}
+	}
+	for _, fn := range c.KevoFns {
+		if fn == remove || wrappers[fn] {
 			continue
 		}
 		AllInstrs(fn, false, func(_ *ssa.Function, ins ssa.Instruction) {
@@ -107,10 +135,7 @@ func ruleTxOrphanRemoval(c *Ctx, r *Reporter) {
 				return
 			}
 			cc := ci.Common()
-			hit := cc.StaticCallee() == remove
-			if cc.IsInvoke() && cc.Method.Name() == "Remove" && strings.Contains(cc.Value.Type().String(), "Registry") {
-				hit = true
-			}
+			hit := isRemoveCall(cc) || (cc.StaticCallee() != nil && wrappers[cc.StaticCallee()])
 			if !hit {
 				return
 			}
